@@ -119,7 +119,7 @@ Definition pre_ok (t : ity) (c : opcase) : bool :=
   stdb t &&
   match c with
   | CGetitem n start _ step x =>
-      all_in n x && (((0 <? step) && (0 <=? start) && (start <=? n)) || ((step <? 0) && (-1 <=? start) && (start <? n)))
+      all_in n x && (((0 <? step) && (0 <=? start) && (start <=? n)) || ((step <? 0) && (-1 <=? start) && (start <=? n)))
       && fits (DInt t) n
   | CFlip n x | CRoll n _ x => all_in n x && (1 <=? n) && fits (DInt t) n
   | _ => true
